@@ -143,12 +143,12 @@ Print Assumptions C05_flat_tile_idx_surjective.
 (** tidx / cog_tidx enumerate every tile exactly once *)
 Theorem C05_tidx_enumerates_once :
   forall m, NoDup (tidx m) /\ forall idx, In idx (tidx m) <-> in_range m idx.
-Proof. intros m; split; [exact (NoDup_tidx m) | exact (in_tidx m)]. Qed.
+Proof. exact tidx_enumerates_once. Qed.
 Print Assumptions C05_tidx_enumerates_once.
 
 Theorem C05_cog_tidx_enumerates_once :
   forall mm, NoDup (cog_tidx mm) /\ forall t, In t (cog_tidx mm) <-> valid_tile mm t.
-Proof. intros mm; split; [exact (NoDup_cog_tidx mm) | exact (in_cog_tidx mm)]. Qed.
+Proof. exact cog_tidx_enumerates_once. Qed.
 Print Assumptions C05_cog_tidx_enumerates_once.
 
 (** ** 5. offsets.  For EVERY observed stream that enumerates each tile exactly
@@ -243,10 +243,7 @@ Section WithC06.
     forall n o, nth_error stream n = Some o ->
       let off := len hdr + presum (map size_of stream) n in
       sel file off (off + size_of o) = encoded o.
-  Proof.
-    intros n o E. rewrite C06_stream_preserved.
-    exact (tile_bytes_in_file encoded hdr stream n o sizes_observed E).
-  Qed.
+  Proof. exact (tile_bytes_in_file_eq encoded hdr file stream sizes_observed C06_stream_preserved). Qed.
 End WithC06.
 Print Assumptions C05_entry_addresses_tile_bytes.
 
@@ -265,17 +262,7 @@ Theorem C05_overview_first :
     nth_error stream n1 = Some o1 -> nth_error stream n2 = Some o2 ->
     1 <= lvl (tile_of o1) -> lvl (tile_of o2) = 0 ->
     start + presum (map size_of stream) n1 + size_of o1 <= start + presum (map size_of stream) n2.
-Proof.
-  intros mm stream start n1 n2 o1 o2 Hw Hs E1 E2 L1 L2.
-  destruct (writer_order_split mm) as (ovr & full & Hsplit & Hovr & Hfull).
-  rewrite Hsplit in Hw.
-  assert (I1 : In (tile_of o1) (ovr ++ full)) by (rewrite <- Hw; apply in_map; eapply nth_error_In; eauto).
-  assert (I2 : In (tile_of o2) (ovr ++ full)) by (rewrite <- Hw; apply in_map; eapply nth_error_In; eauto).
-  apply in_app_or in I1. apply in_app_or in I2.
-  assert (N1 : ~ In (tile_of o1) full) by (intros X; apply Hfull in X; lia).
-  assert (N2 : ~ In (tile_of o2) ovr) by (intros X; apply Hovr in X; lia).
-  eapply overview_first_offsets; eauto; tauto.
-Qed.
+Proof. exact overview_first_writer. Qed.
 Print Assumptions C05_overview_first.
 
 (** ** 8. non-vacuity: a 50 x 70 image, blocksize [32, 16] (cf. the first
